@@ -233,12 +233,13 @@ theorem lfu_pop_rule (wf pf : Nat → Nat) (k : SketchCfg) (s : Lfu) :
 
 /-! ### Non-vacuity -/
 
-example : popAll fifoPolicy 3 ([⟨0,0,0,1,1,.normal,false⟩, ⟨1,1,1,1,1,.normal,false⟩].foldl fifoPolicy.push (fifoPolicy.init 9))
-    = [⟨0,0,0,1,1,.normal,false⟩, ⟨1,1,1,1,1,.normal,false⟩] := by decide
+example : popAll fifoPolicy 3 ([({ id := 0, key := 0, hash := 0, ver := 1, weight := 1 } : Rec), { id := 1, key := 1, hash := 1, ver := 1, weight := 1 }].foldl fifoPolicy.push (fifoPolicy.init 9))
+    = [{ id := 0, key := 0, hash := 0, ver := 1, weight := 1 }, { id := 1, key := 1, hash := 1, ver := 1, weight := 1 }] := by decide
 
 /-- An LRU state with a pinned record, satisfying the invariant, from which `pop` succeeds. -/
 example : ∃ s r s', LruI s ∧ s.pin ≠ [] ∧ (lruPolicy (fun c => c)).pop s = some (r, s') :=
-  ⟨{ high := [], low := [⟨⟨1,1,1,1,1,.low,false⟩, false⟩], pin := [⟨⟨0,0,0,1,1,.normal,false⟩, true⟩], hw := 0, hpCap := 5 },
+  ⟨{ high := [], low := [⟨{ id := 1, key := 1, hash := 1, ver := 1, weight := 1, hint := .low }, false⟩],
+     pin := [⟨{ id := 0, key := 0, hash := 0, ver := 1, weight := 1 }, true⟩], hw := 0, hpCap := 5 },
    _, _, ⟨rfl, by simp, by simp⟩, by simp, rfl⟩
 
 end Foyer.C14
